@@ -475,6 +475,30 @@ impl FusionVisitor for IdentityFusion {
         let &[Some(output_id)] = op_node.output_ids() else {
             return Err(FusionError::CheckFailed("wrong output count"));
         };
+
+        // The constant operand may be a single-element tensor of any rank. If
+        // it has more dims than `x`, the output is `x` broadcast to a higher
+        // rank, so the operation is not an identity.
+        let const_ndim = op_node
+            .input_ids()
+            .iter()
+            .flatten()
+            .filter(|id| **id != input_id)
+            .filter_map(|id| graph.get_node(*id).and_then(|n| n.as_constant()))
+            .map(|c| c.ndim())
+            .max()
+            .unwrap_or(0);
+        if const_ndim > 0 {
+            let x_ndim = graph
+                .get_node(input_id)
+                .and_then(|n| n.shape().map(|s| s.len()));
+            if !x_ndim.is_some_and(|x_ndim| const_ndim <= x_ndim) {
+                return Err(FusionError::CheckFailed(
+                    "constant may broadcast input to higher rank",
+                ));
+            }
+        }
+
         Ok(Fusion::Identity {
             input_id,
             output_id,
